@@ -411,3 +411,642 @@ Proof.
               rewrite list_lookup_insert_ne //. naive_solver.
   - simpl. destruct (Hfresh (or_introl eq_refl)) as (H1 & H2 & H3). done.
 Qed.
+
+(* ------------------------------------------------------------------ *)
+(* every journalled call preserves wf and the coupling relation *)
+Arguments put : simpl never.
+Arguments touch : simpl never.
+Arguments get_or_new : simpl never.
+Arguments get_or_new_j : simpl never.
+Arguments create_object : simpl never.
+Arguments obj_set_balance : simpl never.
+Arguments obj_set_nonce : simpl never.
+Arguments obj_set_code : simpl never.
+Arguments obj_set_state : simpl never.
+Arguments obj_self_destruct : simpl never.
+Arguments touch_change : simpl never.
+Arguments j_append : simpl never.
+Arguments al_add_address : simpl never.
+Arguments al_add_slot : simpl never.
+Arguments acct_empty : simpl never.
+Arguments N.modulo : simpl never.
+Arguments N.add : simpl never.
+Arguments N.sub : simpl never.
+
+Lemma put_same a x c : accts c !! a = Some x → put a x c = touch a c.
+Proof. intros H. destruct c; unfold put, touch; rc; simpl in *. f_equal. by rewrite insert_id. Qed.
+
+Lemma eqb_decide (a b : N) : bool_decide (a = b) = (a =? b).
+Proof. case_bool_decide; [subst; by rewrite N.eqb_refl|symmetry; by apply N.eqb_neq]. Qed.
+
+Lemma sticky_eq st j c o : Rc st j c → sticky_j j o = sticky_touch c o.
+Proof.
+  intros R. destruct o; try done. simpl. rewrite eqb_decide. f_equal.
+  pose proof (rc_objs _ _ _ R a) as H.
+  destruct (j_objs j !! a) as [o|], (accts c !! a) as [x|]; try done.
+  unfold obj_empty. by rewrite (proj1 H).
+Qed.
+
+Definition thti (j j' : jstate) : Prop := j_th j' = j_th j ∧ j_ti j' = j_ti j.
+Lemma thti_jupd a e k v o' j : thti j (jupd a e k v o' j).
+Proof. by destruct j. Qed.
+Lemma thti_trans j1 j2 j3 : thti j1 j2 → thti j2 j3 → thti j1 j3.
+Proof. intros [A B] [C D]. split; congruence. Qed.
+
+(* the result of a call, related on both sides *)
+Definition post (st : bool) (j : jstate) (pj : jstate * out) (pc : rcore * out) : Prop :=
+  pj.2 = pc.2 ∧ wf pj.1 ∧ Rc st pj.1 pc.1 ∧ thti j pj.1.
+
+Lemma post_set st a e k v o o' x' j0 j c :
+  wf j → Rc st j c → thti j0 j → j_objs j !! a = Some o →
+  o_dirty o' = o_dirty o → o_pending o' = o_pending o → o_origin o' = o_origin o →
+  obj_rel j a o' x' →
+  post st j0 (jupd a e k v o' j, RNone) (put a x' c, RNone).
+Proof.
+  intros W R T Ho H1 H2 H3 Hr. split_and!; simpl; [done|by eapply wf_jupd_same|by apply Rc_jupd|].
+  eapply thti_trans; [done|apply thti_jupd].
+Qed.
+
+Lemma set_state_props k v orig o :
+  o_pending (set_state k v orig o) = o_pending o ∧ o_origin (set_state k v orig o) = o_origin o ∧
+  o_data (set_state k v orig o) = o_data o ∧ o_sd (set_state k v orig o) = o_sd o ∧
+  o_new (set_state k v orig o) = o_new o.
+Proof. unfold set_state. by destruct (v =? orig). Qed.
+
+Lemma get_state_set j a o k v s :
+  get_state j a (set_state k v (committed j a o k) o) s
+  = if bool_decide (s = k) then v else get_state j a o s.
+Proof.
+  unfold get_state. rewrite (committed_pending j a o); [apply set_state_props|].
+  unfold set_state. destruct (v =? committed j a o k) eqn:E; rs; case_bool_decide as Hs; subst.
+  - apply N.eqb_eq in E. by rewrite lookup_delete.
+  - by rewrite lookup_delete_ne.
+  - by rewrite lookup_insert.
+  - by rewrite lookup_insert_ne.
+Qed.
+
+Lemma Rc_objs_upd st j j' c a o' x' :
+  Rc st j c → j_objs j' = <[a := o']> (j_objs j) → j_muts j' = j_muts j →
+  j_db j' = j_db j → j_destruct j' = j_destruct j → j_ala j' = j_ala j → j_als j' = j_als j →
+  j_logs j' = j_logs j → j_logsize j' = j_logsize j → j_tstor j' = j_tstor j → j_refund j' = j_refund j →
+  obj_rel j a o' x' → Rc st j' (c <| accts ::= <[a := x']> |>).
+Proof.
+  intros R P1 P2 P3 P4 P6 P7 P8 P9 P10 P11 Hr. split.
+  - intros b. rewrite P1. replace (accts (c <| accts ::= <[a:=x']> |>)) with (<[a:=x']> (accts c)) by (by destruct c).
+    destruct (decide (b = a)) as [->|Hn].
+    + rewrite !lookup_insert. by apply (obj_rel_env j).
+    + rewrite !lookup_insert_ne //. pose proof (rc_objs _ _ _ R b) as H.
+      destruct (j_objs j !! b), (accts c !! b); try done. by apply (obj_rel_env j).
+  - rewrite P10. apply R.
+  - rewrite P11. apply R.
+  - intros b. rewrite P6. apply R.
+  - intros b s. rewrite -(rc_als _ _ _ R b s). unfold al_contains_slot. by rewrite P6 P7.
+  - intros th. rewrite P8. apply R.
+  - rewrite P9. apply R.
+  - intros b. rewrite P2. apply R.
+Qed.
+
+Lemma j_append_nomut e j : mutation e = None → j_append e j = j <| j_entries ::= cons e |>.
+Proof. intros H. unfold j_append. by rewrite H. Qed.
+
+Lemma wf_alwf j : wf j → alwf j.
+Proof. intros W. split; apply W. Qed.
+Lemma Rc_alrel st j c : Rc st j c → alrel j (al_a c) (al_s c).
+Proof. intros R. split; apply R. Qed.
+
+Lemma core_refines st j c o :
+  wf j → Rc st j c → core_op o = true → op_ok j o = true → sticky_j j o = false →
+  post st j (step_j j o) (core_step (j_th j) (j_ti j) c o).
+Proof.
+  intros W R Hc Hok Hst. assert (T0 : thti j j) by done.
+  destruct o; try done; simpl in Hok; simpl step_j; simpl core_step.
+  - (* CreateAccount *)
+    apply bool_decide_eq_true in Hok. split_and!; simpl; [done|by apply wf_create|by apply Rc_create|].
+    rewrite create_object_upd. apply thti_jupd.
+  - (* CreateContract *)
+    pose proof (rc_objs _ _ _ R a) as H.
+    destruct (j_objs j !! a) as [o|] eqn:Ho, (accts c !! a) as [x|] eqn:Hx; try done.
+    destruct H as (D1 & D2 & D3 & D4 & D5). destruct (o_new o) eqn:En.
+    { split_and!; simpl; [done|done| |done].
+      eapply (Rc_objs_upd st j j c a o); try done; try (by rewrite insert_id); by repeat split. }
+    set (j' := j_append (JCreateContract a) (put_obj a (o <| o_new := true |>) j)).
+    assert (P : j_objs j' = <[a := o <| o_new := true |>]> (j_objs j) ∧ j_muts j' = j_muts j ∧
+                j_db j' = j_db j ∧ j_destruct j' = j_destruct j ∧ j_bad j' = j_bad j ∧ j_ala j' = j_ala j ∧
+                j_als j' = j_als j ∧ j_logs j' = j_logs j ∧ j_logsize j' = j_logsize j ∧
+                j_tstor j' = j_tstor j ∧ j_refund j' = j_refund j ∧ thti j j')
+      by (subst j'; by destruct j).
+    destruct P as (P1&P2&P3&P4&P5&P6&P7&P8&P9&P10&P11&P12).
+    split_and!; simpl; [done| | |done].
+    + split.
+      * rewrite P5. apply W.
+      * intros b m. unfold mloc. rewrite P2. apply W.
+      * intros b idx. unfold al_loc. rewrite P6 P7. apply W.
+      * intros th. rewrite P8. apply W.
+      * intros s y. rewrite P10. apply W.
+      * intros b o' s d. rewrite P1 (committed_env j j') //. destruct (decide (b = a)) as [->|Hn].
+        -- rewrite lookup_insert. intros [= <-]. apply (wf_dirty _ W a o s d Ho).
+        -- rewrite lookup_insert_ne //. apply W.
+      * intros b b' idx. rewrite P6. apply W.
+      * intros b o'. rewrite P1 P3 P4. destruct (decide (b = a)) as [->|Hn].
+        -- rewrite lookup_insert. intros [= <-]. apply (wf_origin _ W a o Ho).
+        -- rewrite lookup_insert_ne //. apply W.
+      * intros b. rewrite P1 P3 P4. destruct (decide (b = a)) as [->|Hn]; [by rewrite lookup_insert|].
+        rewrite lookup_insert_ne //. apply W.
+      * intros b o'. rewrite P1 P2. destruct (decide (b = a)) as [->|Hn].
+        -- rewrite lookup_insert. intros [= <-]. apply (wf_dirtymut _ W a o Ho).
+        -- rewrite lookup_insert_ne //. apply W.
+    + eapply (Rc_objs_upd st j j' c a); try done; by repeat split.
+  - (* AddBalance *)
+    destruct (gon_rel st a j c W R) as (j1 & o & c1 & x & E1 & E2 & W1 & R1 & Ho & Hx & Hox & T1 & T2 & S1).
+    rewrite E1 E2. assert (T : thti j j1) by done.
+    assert (Hemp : obj_empty o = acct_empty (ra x)) by (unfold obj_empty; by rewrite (proj1 Hox)).
+    destruct (v =? 0) eqn:Ev.
+    + rewrite -Hemp. destruct (obj_empty o) eqn:Ee; [|by split_and!].
+      assert (Hnr : a ≠ ripemd).
+      { intros ->. unfold sticky_j in Hst. rewrite Ev bool_decide_true // in Hst. simpl in Hst.
+        destruct (j_objs j !! ripemd) eqn:Hj.
+        - unfold get_or_new_j in E1. rewrite Hj in E1. simplify_eq. by rewrite Ee in Hst.
+        - done. }
+      rewrite (touch_upd a o) // -(put_same a x) //.
+      by eapply post_set.
+    + rewrite set_balance_upd. eapply post_set; try done.
+      destruct Hox as (D1 & D2 & D3 & D4 & D5). split_and!; try done. rs. by rewrite D1.
+  - (* SubBalance *)
+    destruct (gon_rel st a j c W R) as (j1 & o & c1 & x & E1 & E2 & W1 & R1 & Ho & Hx & Hox & T1 & T2 & S1).
+    rewrite E1 E2. assert (T : thti j j1) by done.
+    destruct (v =? 0) eqn:Ev; [by split_and!|].
+    rewrite set_balance_upd. eapply post_set; try done.
+    destruct Hox as (D1 & D2 & D3 & D4 & D5). split_and!; try done. rs. by rewrite D1.
+  - (* SetBalance *)
+    destruct (gon_rel st a j c W R) as (j1 & o & c1 & x & E1 & E2 & W1 & R1 & Ho & Hx & Hox & T1 & T2 & S1).
+    rewrite E1 E2. assert (T : thti j j1) by done.
+    rewrite set_balance_upd. eapply post_set; try done.
+    destruct Hox as (D1 & D2 & D3 & D4 & D5). split_and!; try done. rs. by rewrite D1.
+  - (* SetNonce *)
+    destruct (gon_rel st a j c W R) as (j1 & o & c1 & x & E1 & E2 & W1 & R1 & Ho & Hx & Hox & T1 & T2 & S1).
+    rewrite E1 E2. assert (T : thti j j1) by done.
+    rewrite set_nonce_upd. eapply post_set; try done.
+    destruct Hox as (D1 & D2 & D3 & D4 & D5). split_and!; try done. rs. by rewrite D1.
+  - (* SetCode *)
+    destruct (gon_rel st a j c W R) as (j1 & o & c1 & x & E1 & E2 & W1 & R1 & Ho & Hx & Hox & T1 & T2 & S1).
+    rewrite E1 E2. assert (T : thti j j1) by done.
+    rewrite set_code_upd. eapply post_set; try done.
+    destruct Hox as (D1 & D2 & D3 & D4 & D5). split_and!; try done. rs. by rewrite D1.
+  - (* SetState *)
+    destruct (gon_rel st a j c W R) as (j1 & o & c1 & x & E1 & E2 & W1 & R1 & Ho & Hx & Hox & T1 & T2 & S1).
+    rewrite E1 E2. assert (T : thti j j1) by done.
+    destruct Hox as (D1 & D2 & D3 & D4 & D5). rewrite D2.
+    destruct (sget (r_stor x) k =? v) eqn:Ev; [by split_and!|]. apply N.eqb_neq in Ev.
+    rewrite set_state_upd.
+    destruct (set_state_props k v (committed j1 a o k) o) as (Q1 & Q2 & Q3 & Q4 & Q5).
+    split_and!; simpl; [done| |apply Rc_jupd; [done|]|eapply thti_trans; [done|apply thti_jupd]].
+    + apply wf_jupd; [done| |].
+      * intros s d. rewrite (committed_pending j1 a o) //.
+        unfold set_state. destruct (v =? committed j1 a o k) eqn:E; rs.
+        -- destruct (decide (s = k)) as [->|Hn]; [by rewrite lookup_delete|rewrite lookup_delete_ne //]. by eapply wf_dirty.
+        -- destruct (decide (s = k)) as [->|Hn]; [rewrite lookup_insert; intros [= <-]; by apply N.eqb_neq|].
+           rewrite lookup_insert_ne //. by eapply wf_dirty.
+      * rewrite Q2. by eapply wf_origin.
+    + split_and!.
+      * by rewrite Q3.
+      * intros s. rewrite get_state_set. unfold sget.
+        replace (r_stor (x <| r_stor ::= <[k:=v]> |>)) with (<[k:=v]> (r_stor x)) by (by destruct x).
+        destruct (decide (s = k)) as [->|Hn];
+          [by rewrite bool_decide_true // lookup_insert|rewrite bool_decide_false // lookup_insert_ne //].
+        apply D2.
+      * intros s. rewrite (committed_pending j1 a o) //.
+      * by rewrite Q4.
+      * by rewrite Q5.
+  - (* SetTransient *)
+    unfold tget. rewrite -(rc_tstor _ _ _ R).
+    destruct (default 0 (j_tstor j !! (a, k)) =? v) eqn:Ev; [by split_and!|]. apply N.eqb_neq in Ev.
+    rewrite j_append_nomut //.
+    set (f := if v =? 0 then delete (a, k) else <[(a, k):=v]>).
+    set (j' := j <| j_entries ::= cons _ |> <| j_tstor ::= f |>).
+    assert (P : j_objs j' = j_objs j ∧ j_muts j' = j_muts j ∧ j_db j' = j_db j ∧ j_destruct j' = j_destruct j ∧
+                j_bad j' = j_bad j ∧ j_ala j' = j_ala j ∧ j_als j' = j_als j ∧ j_logs j' = j_logs j ∧
+                j_logsize j' = j_logsize j ∧ j_tstor j' = f (j_tstor j) ∧ j_refund j' = j_refund j ∧ thti j j')
+      by (subst j'; by destruct j).
+    destruct P as (P1&P2&P3&P4&P5&P6&P7&P8&P9&P10&P11&P12).
+    split_and!; simpl; [done| | |done].
+    + apply (wf_other j j' W P1 P2 P3 P4).
+      * rewrite P5. apply W.
+      * apply (alwf_frame j); [done|done|by apply wf_alwf].
+      * apply (alwf_frame j); [done|done|by apply wf_alwf].
+      * intros th. rewrite P8. apply W.
+      * intros s y. rewrite P10. subst f. destruct (v =? 0) eqn:E0.
+        -- destruct (decide (s = (a, k))) as [->|Hn]; [by rewrite lookup_delete|rewrite lookup_delete_ne //]. apply W.
+        -- destruct (decide (s = (a, k))) as [->|Hn]; [rewrite lookup_insert; intros [= <-]; by apply N.eqb_neq|].
+           rewrite lookup_insert_ne //. apply W.
+    + apply (Rc_other st j j' c _ R P1 P2 P3 P4).
+      * by destruct c.
+      * by destruct c.
+      * rewrite P10 (rc_tstor _ _ _ R). by destruct c.
+      * rewrite P11 (rc_refund _ _ _ R). by destruct c.
+      * intros b. rewrite P6 (rc_ala _ _ _ R). by destruct c.
+      * intros b s. rewrite -(rc_als _ _ _ R b s). unfold al_contains_slot. by rewrite P6 P7.
+      * intros th. rewrite P8 (rc_logs _ _ _ R). by destruct c.
+      * rewrite P9 (rc_logsize _ _ _ R). by destruct c.
+  - (* SelfDestruct *)
+    pose proof (rc_objs _ _ _ R a) as H.
+    destruct (j_objs j !! a) as [o|] eqn:Ho, (accts c !! a) as [x|] eqn:Hx; try done; try (by split_and!).
+    destruct H as (D1 & D2 & D3 & D4 & D5). rewrite -D4. destruct (o_sd o) eqn:Es; [by split_and!|].
+    rewrite self_destruct_upd. eapply post_set; try done; by split_and!.
+  - (* SelfDestruct6780 *)
+    pose proof (rc_objs _ _ _ R a) as H.
+    destruct (j_objs j !! a) as [o|] eqn:Ho, (accts c !! a) as [x|] eqn:Hx; try done; try (by split_and!).
+    destruct H as (D1 & D2 & D3 & D4 & D5). rewrite -D4 -D5.
+    destruct (o_new o && negb (o_sd o)) eqn:Es; [|by split_and!].
+    rewrite self_destruct_upd. eapply post_set; try done; by split_and!.
+  - (* AddAddress *)
+    destruct (al_add_address_proj a j) as (P1&P2&P3&P4&P5&P6&P7&P8&P9&P10&P11&P12&P13&P14&P15&P16&P17).
+    pose proof (al_add_address_wf a j (wf_alwf _ W)) as HW.
+    pose proof (al_add_address_rel a j _ _ (Rc_alrel _ _ _ R)) as HR.
+    destruct (al_add_address a j) as [j1 ch] eqn:E. simpl in *.
+    set (j' := if ch then j_append (JALAddr a) j1 else j1).
+    assert (P : j_objs j' = j_objs j1 ∧ j_muts j' = j_muts j1 ∧ j_db j' = j_db j1 ∧ j_destruct j' = j_destruct j1 ∧
+                j_bad j' = j_bad j1 ∧ j_ala j' = j_ala j1 ∧ j_als j' = j_als j1 ∧ j_logs j' = j_logs j1 ∧
+                j_logsize j' = j_logsize j1 ∧ j_tstor j' = j_tstor j1 ∧ j_refund j' = j_refund j1 ∧ thti j1 j')
+      by (subst j'; destruct ch; [rewrite j_append_nomut //; by destruct j1|done]).
+    destruct P as (Q1&Q2&Q3&Q4&Q5&Q6&Q7&Q8&Q9&Q10&Q11&Q12).
+    split_and!; simpl; [done| | |split; [rewrite (proj1 Q12)|rewrite (proj2 Q12)]; done].
+    + apply (wf_other j j' W); [congruence|congruence|congruence|congruence| | | | |].
+      * rewrite Q5 P8. apply W.
+      * apply (alwf_frame j1); done.
+      * apply (alwf_frame j1); done.
+      * intros th. rewrite Q8 P9. apply W.
+      * intros s y. rewrite Q10 P11. apply W.
+    + apply (Rc_other st j j' c _ R); [congruence|congruence|congruence|congruence| | | | | | | |].
+      * by destruct c.
+      * by destruct c.
+      * rewrite Q10 P11 (rc_tstor _ _ _ R). by destruct c.
+      * rewrite Q11 P12 (rc_refund _ _ _ R). by destruct c.
+      * apply (alrel_frame j1 j') in HR; [|done|done]. destruct HR as [X _]. intros b. rewrite X. by destruct c.
+      * apply (alrel_frame j1 j') in HR; [|done|done]. destruct HR as [_ Y]. intros b s. rewrite Y. by destruct c.
+      * intros th. rewrite Q8 P9 (rc_logs _ _ _ R). by destruct c.
+      * rewrite Q9 P10 (rc_logsize _ _ _ R). by destruct c.
+  - (* AddSlot *)
+    destruct (al_add_slot_proj a k j) as (P4&P5&P6&P7&P9&P10&P11&P12&P13&P14&P15&P16&P17).
+    destruct (al_add_slot_spec a k j _ _ (wf_alwf _ W) (Rc_alrel _ _ _ R)) as (HW & HR & HB & _ & _).
+    destruct (al_add_slot a k j) as [[j1 am] sm] eqn:E. simpl in *.
+    set (j2 := if am then j_append (JALAddr a) j1 else j1).
+    set (j' := if sm then j_append (JALSlot a k) j2 else j2).
+    assert (P : j_objs j' = j_objs j1 ∧ j_muts j' = j_muts j1 ∧ j_db j' = j_db j1 ∧ j_destruct j' = j_destruct j1 ∧
+                j_bad j' = j_bad j1 ∧ j_ala j' = j_ala j1 ∧ j_als j' = j_als j1 ∧ j_logs j' = j_logs j1 ∧
+                j_logsize j' = j_logsize j1 ∧ j_tstor j' = j_tstor j1 ∧ j_refund j' = j_refund j1 ∧ thti j1 j').
+    { subst j' j2. destruct sm, am; rewrite ?j_append_nomut //; by destruct j1. }
+    destruct P as (Q1&Q2&Q3&Q4&Q5&Q6&Q7&Q8&Q9&Q10&Q11&Q12).
+    split_and!; simpl; [done| | |split; [rewrite (proj1 Q12)|rewrite (proj2 Q12)]; done].
+    + apply (wf_other j j' W); [congruence|congruence|congruence|congruence| | | | |].
+      * rewrite Q5 HB. apply W.
+      * apply (alwf_frame j1); done.
+      * apply (alwf_frame j1); done.
+      * intros th. rewrite Q8 P9. apply W.
+      * intros s y. rewrite Q10 P11. apply W.
+    + apply (Rc_other st j j' c _ R); [congruence|congruence|congruence|congruence| | | | | | | |].
+      * by destruct c.
+      * by destruct c.
+      * rewrite Q10 P11 (rc_tstor _ _ _ R). by destruct c.
+      * rewrite Q11 P12 (rc_refund _ _ _ R). by destruct c.
+      * apply (alrel_frame j1 j') in HR; [|done|done]. destruct HR as [X _]. intros b. rewrite X. by destruct c.
+      * apply (alrel_frame j1 j') in HR; [|done|done]. destruct HR as [_ Y]. intros b s. rewrite Y. by destruct c.
+      * intros th. rewrite Q8 P9 (rc_logs _ _ _ R). by destruct c.
+      * rewrite Q9 P10 (rc_logsize _ _ _ R). by destruct c.
+  - (* AddRefund *)
+    rewrite j_append_nomut //. rewrite (rc_refund _ _ _ R).
+    set (j' := j <| j_entries ::= cons _ |> <| j_refund := _ |>).
+    assert (P : j_objs j' = j_objs j ∧ j_muts j' = j_muts j ∧ j_db j' = j_db j ∧ j_destruct j' = j_destruct j ∧
+                j_bad j' = j_bad j ∧ j_ala j' = j_ala j ∧ j_als j' = j_als j ∧ j_logs j' = j_logs j ∧
+                j_logsize j' = j_logsize j ∧ j_tstor j' = j_tstor j ∧ j_refund j' = (refund c + g) mod W64 ∧ thti j j')
+      by (subst j'; by destruct j).
+    destruct P as (P1&P2&P3&P4&P5&P6&P7&P8&P9&P10&P11&P12).
+    split_and!; simpl; [done| | |done].
+    + apply (wf_other j j' W P1 P2 P3 P4).
+      * rewrite P5. apply W.
+      * apply (alwf_frame j); [done|done|by apply wf_alwf].
+      * apply (alwf_frame j); [done|done|by apply wf_alwf].
+      * intros th. rewrite P8. apply W.
+      * intros s y. rewrite P10. apply W.
+    + apply (Rc_other st j j' c _ R P1 P2 P3 P4).
+      * by destruct c.
+      * by destruct c.
+      * rewrite P10 (rc_tstor _ _ _ R). by destruct c.
+      * rewrite P11. by destruct c.
+      * intros b. rewrite P6 (rc_ala _ _ _ R). by destruct c.
+      * intros b s. rewrite -(rc_als _ _ _ R b s). unfold al_contains_slot. by rewrite P6 P7.
+      * intros th. rewrite P8 (rc_logs _ _ _ R). by destruct c.
+      * rewrite P9 (rc_logsize _ _ _ R). by destruct c.
+  - (* SubRefund *)
+    rewrite j_append_nomut //. rewrite (rc_refund _ _ _ R).
+    set (j1 := j <| j_entries ::= cons _ |>).
+    assert (P : j_objs j1 = j_objs j ∧ j_muts j1 = j_muts j ∧ j_db j1 = j_db j ∧ j_destruct j1 = j_destruct j ∧
+                j_bad j1 = j_bad j ∧ j_ala j1 = j_ala j ∧ j_als j1 = j_als j ∧ j_logs j1 = j_logs j ∧
+                j_logsize j1 = j_logsize j ∧ j_tstor j1 = j_tstor j ∧ j_refund j1 = j_refund j ∧ thti j j1)
+      by (subst j1; by destruct j).
+    destruct P as (P1&P2&P3&P4&P5&P6&P7&P8&P9&P10&P11&P12).
+    assert (W1 : wf j1).
+    { apply (wf_other j j1 W P1 P2 P3 P4).
+      * rewrite P5. apply W.
+      * apply (alwf_frame j); [done|done|by apply wf_alwf].
+      * apply (alwf_frame j); [done|done|by apply wf_alwf].
+      * intros th. rewrite P8. apply W.
+      * intros s y. rewrite P10. apply W. }
+    destruct (refund c <? g) eqn:Eg.
+    + split_and!; simpl; [done|done| |done].
+      apply (Rc_other st j j1 c c R P1 P2 P3 P4); try done.
+      * rewrite P10. apply R.
+      * rewrite P11. apply R.
+      * intros b. rewrite P6. apply R.
+      * intros b s. rewrite -(rc_als _ _ _ R b s). unfold al_contains_slot. by rewrite P6 P7.
+      * intros th. rewrite P8. apply R.
+      * rewrite P9. apply R.
+    + set (j' := j1 <| j_refund := _ |>).
+      assert (Q : j_objs j' = j_objs j1 ∧ j_muts j' = j_muts j1 ∧ j_db j' = j_db j1 ∧ j_destruct j' = j_destruct j1 ∧
+                j_bad j' = j_bad j1 ∧ j_ala j' = j_ala j1 ∧ j_als j' = j_als j1 ∧ j_logs j' = j_logs j1 ∧
+                j_logsize j' = j_logsize j1 ∧ j_tstor j' = j_tstor j1 ∧ j_refund j' = refund c - g ∧ thti j1 j')
+        by (subst j'; by destruct j1).
+      destruct Q as (Q1&Q2&Q3&Q4&Q5&Q6&Q7&Q8&Q9&Q10&Q11&Q12).
+      split_and!; simpl; [done| | |by eapply thti_trans].
+      * apply (wf_other j1 j' W1 Q1 Q2 Q3 Q4).
+        -- rewrite Q5. apply W1.
+        -- apply (alwf_frame j1); [done|done|by apply wf_alwf].
+        -- apply (alwf_frame j1); [done|done|by apply wf_alwf].
+        -- intros th. rewrite Q8. apply W1.
+        -- intros s y. rewrite Q10. apply W1.
+      * apply (Rc_other st j j' c _ R); [congruence|congruence|congruence|congruence| | | | | | | |].
+        -- by destruct c.
+        -- by destruct c.
+        -- rewrite Q10 P10 (rc_tstor _ _ _ R). by destruct c.
+        -- rewrite Q11. by destruct c.
+        -- intros b. rewrite Q6 P6 (rc_ala _ _ _ R). by destruct c.
+        -- intros b s. rewrite -(rc_als _ _ _ R b s). unfold al_contains_slot. by rewrite Q6 Q7 P6 P7.
+        -- intros th. rewrite Q8 P8 (rc_logs _ _ _ R). by destruct c.
+        -- rewrite Q9 P9 (rc_logsize _ _ _ R). by destruct c.
+  - (* AddLog *)
+    rewrite j_append_nomut //. rewrite (rc_logsize _ _ _ R).
+    set (l := {| l_th := j_th j; l_ti := j_ti j; l_idx := N.of_nat (length (logs c)); l_addr := a; l_data := d |}).
+    set (j' := j <| j_entries ::= cons _ |> <| j_logs ::= _ |> <| j_logsize ::= N.succ |>).
+    assert (P : j_objs j' = j_objs j ∧ j_muts j' = j_muts j ∧ j_db j' = j_db j ∧ j_destruct j' = j_destruct j ∧
+                j_bad j' = j_bad j ∧ j_ala j' = j_ala j ∧ j_als j' = j_als j ∧
+                j_logs j' = <[j_th j := default [] (j_logs j !! j_th j) ++ [l]]> (j_logs j) ∧
+                j_logsize j' = N.succ (j_logsize j) ∧ j_tstor j' = j_tstor j ∧ j_refund j' = j_refund j ∧ thti j j')
+      by (subst j'; by destruct j).
+    destruct P as (P1&P2&P3&P4&P5&P6&P7&P8&P9&P10&P11&P12).
+    split_and!; simpl; [done| | |done].
+    + apply (wf_other j j' W P1 P2 P3 P4).
+      * rewrite P5. apply W.
+      * apply (alwf_frame j); [done|done|by apply wf_alwf].
+      * apply (alwf_frame j); [done|done|by apply wf_alwf].
+      * intros th. rewrite P8. destruct (decide (th = j_th j)) as [->|Hn].
+        -- rewrite lookup_insert. intros [= H]. by destruct (default [] (j_logs j !! j_th j)).
+        -- rewrite lookup_insert_ne //. apply W.
+      * intros s y. rewrite P10. apply W.
+    + apply (Rc_other st j j' c _ R P1 P2 P3 P4).
+      * by destruct c.
+      * by destruct c.
+      * rewrite P10 (rc_tstor _ _ _ R). by destruct c.
+      * rewrite P11 (rc_refund _ _ _ R). by destruct c.
+      * intros b. rewrite P6 (rc_ala _ _ _ R). by destruct c.
+      * intros b s. rewrite -(rc_als _ _ _ R b s). unfold al_contains_slot. by rewrite P6 P7.
+      * intros th. rewrite P8.
+        replace (logs (c <| logs ::= λ l0, l0 ++ [l] |>)) with (logs c ++ [l]) by (by destruct c).
+        rewrite filter_app. destruct (decide (th = j_th j)) as [->|Hn].
+        -- rewrite lookup_insert. simpl. rewrite (rc_logs _ _ _ R). f_equal.
+           rewrite filter_cons_True //.
+        -- rewrite lookup_insert_ne // (rc_logs _ _ _ R). rewrite filter_cons_False; [simpl; congruence|].
+           by rewrite filter_nil app_nil_r.
+      * rewrite P9 (rc_logsize _ _ _ R).
+        replace (logs (c <| logs ::= λ l0, l0 ++ [l] |>)) with (logs c ++ [l]) by (by destruct c).
+        rewrite app_length. simpl. lia.
+Qed.
+
+(* ------------------------------------------------------------------ *)
+(* the coupling invariant on whole states: current cores related, and every valid
+   revision is matched by a saved copy that is related to the implementation state the
+   journal would revert to *)
+Fixpoint stack_rel (st : bool) (j : jstate) (revs : list (N * nat)) (stack : list (N * rcore)) : Prop :=
+  match revs, stack with
+  | [], [] => True
+  | (id, idx) :: revs', (id', c) :: stack' =>
+      id = id' ∧ (idx ≤ length (j_entries j))%nat ∧
+      ∃ jk, (revert_to idx j) <| j_revs := revs' |> = jk <| j_nextrev := j_nextrev j |> ∧
+            j_revs jk = revs' ∧ length (j_entries jk) = idx ∧ wf jk ∧ Rc st jk c ∧
+            stack_rel st jk revs' stack'
+  | _, _ => False
+  end.
+
+Record Inv (j : jstate) (r : rstate) : Prop := {
+  inv_wf : wf j;
+  inv_rc : Rc (r_sticky r) j (r_cur r);
+  inv_th : j_th j = r_th r;
+  inv_ti : j_ti j = r_ti r;
+  inv_next : j_nextrev j = r_next r;
+  inv_stack : stack_rel (r_sticky r) j (j_revs j) (r_stack r)
+}.
+
+(* journal.revert ignores validRevisions / nextRevisionId *)
+Lemma revert_entry_set_revs e j rv :
+  revert_entry e (j <| j_revs := rv |>) = (revert_entry e j) <| j_revs := rv |>.
+Proof.
+  destruct e; simpl; unfold with_obj, al_delete_slot; destruct j; rj; simpl;
+    try (destruct (default [] (j_logs !! th)) as [|? [|? ?]]; done);
+    repeat case_match; done.
+Qed.
+Lemma revert_entry_set_next e j n :
+  revert_entry e (j <| j_nextrev := n |>) = (revert_entry e j) <| j_nextrev := n |>.
+Proof.
+  destruct e; simpl; unfold with_obj, al_delete_slot; destruct j; rj; simpl;
+    try (destruct (default [] (j_logs !! th)) as [|? [|? ?]]; done);
+    repeat case_match; done.
+Qed.
+Lemma unmutate_set_revs e j rv : unmutate e (j <| j_revs := rv |>) = (unmutate e j) <| j_revs := rv |>.
+Proof. unfold unmutate. destruct j; rj; simpl. repeat case_match; done. Qed.
+Lemma unmutate_set_next e j n : unmutate e (j <| j_nextrev := n |>) = (unmutate e j) <| j_nextrev := n |>.
+Proof. unfold unmutate. destruct j; rj; simpl. repeat case_match; done. Qed.
+
+Lemma undo1_set_revs j rv : undo1 (j <| j_revs := rv |>) = (undo1 j) <| j_revs := rv |>.
+Proof.
+  unfold undo1. replace (j_entries (j <| j_revs := rv |>)) with (j_entries j) by (by destruct j).
+  destruct (j_entries j); [done|]. rewrite revert_entry_set_revs unmutate_set_revs.
+  by destruct (unmutate j0 (revert_entry j0 j)).
+Qed.
+Lemma undo1_set_next j n : undo1 (j <| j_nextrev := n |>) = (undo1 j) <| j_nextrev := n |>.
+Proof.
+  unfold undo1. replace (j_entries (j <| j_nextrev := n |>)) with (j_entries j) by (by destruct j).
+  destruct (j_entries j); [done|]. rewrite revert_entry_set_next unmutate_set_next.
+  by destruct (unmutate j0 (revert_entry j0 j)).
+Qed.
+Lemma revert_n_set_revs k j rv : revert_n k (j <| j_revs := rv |>) = (revert_n k j) <| j_revs := rv |>.
+Proof.
+  revert j. induction k as [|k IH]; intros j; [done|]. rewrite !revert_n_S.
+  replace (j_entries (j <| j_revs := rv |>)) with (j_entries j) by (by destruct j).
+  destruct (j_entries j); [done|]. by rewrite undo1_set_revs IH.
+Qed.
+Lemma revert_n_set_next k j n : revert_n k (j <| j_nextrev := n |>) = (revert_n k j) <| j_nextrev := n |>.
+Proof.
+  revert j. induction k as [|k IH]; intros j; [done|]. rewrite !revert_n_S.
+  replace (j_entries (j <| j_nextrev := n |>)) with (j_entries j) by (by destruct j).
+  destruct (j_entries j); [done|]. by rewrite undo1_set_next IH.
+Qed.
+Lemma revert_to_set_revs i j rv : revert_to i (j <| j_revs := rv |>) = (revert_to i j) <| j_revs := rv |>.
+Proof.
+  unfold revert_to. replace (j_entries (j <| j_revs := rv |>)) with (j_entries j) by (by destruct j).
+  apply revert_n_set_revs.
+Qed.
+Lemma revert_to_set_next i j n : revert_to i (j <| j_nextrev := n |>) = (revert_to i j) <| j_nextrev := n |>.
+Proof.
+  unfold revert_to. replace (j_entries (j <| j_nextrev := n |>)) with (j_entries j) by (by destruct j).
+  apply revert_n_set_next.
+Qed.
+
+Lemma wf_ext j j' :
+  j_bad j' = j_bad j → j_muts j' = j_muts j → j_ala j' = j_ala j → j_als j' = j_als j →
+  j_logs j' = j_logs j → j_tstor j' = j_tstor j → j_objs j' = j_objs j → j_db j' = j_db j →
+  j_destruct j' = j_destruct j → wf j → wf j'.
+Proof.
+  intros E1 E2 E3 E4 E5 E6 E7 E8 E9 W. apply (wf_other j j' W); try done.
+  - rewrite E1. apply W.
+  - apply (alwf_frame j); [done|done|by apply wf_alwf].
+  - apply (alwf_frame j); [done|done|by apply wf_alwf].
+  - intros th. rewrite E5. apply W.
+  - intros s y. rewrite E6. apply W.
+Qed.
+
+Lemma Rc_ext st j j' c :
+  j_muts j' = j_muts j → j_ala j' = j_ala j → j_als j' = j_als j → j_logs j' = j_logs j →
+  j_logsize j' = j_logsize j → j_tstor j' = j_tstor j → j_refund j' = j_refund j →
+  j_objs j' = j_objs j → j_db j' = j_db j → j_destruct j' = j_destruct j → Rc st j c → Rc st j' c.
+Proof.
+  intros E2 E3 E4 E5 E5' E6 E6' E7 E8 E9 R. apply (Rc_other st j j' c c R); try done.
+  - rewrite E6. apply R.
+  - rewrite E6'. apply R.
+  - intros b. rewrite E3. apply R.
+  - intros b s. rewrite -(rc_als _ _ _ R b s). unfold al_contains_slot. by rewrite E3 E4.
+  - intros th. rewrite E5. apply R.
+  - rewrite E5'. apply R.
+Qed.
+
+Lemma stack_rel_step st j j' revs stack :
+  stack_rel st j revs stack → revert_to (length (j_entries j)) j' = j →
+  j_nextrev j' = j_nextrev j → stack_rel st j' revs stack.
+Proof.
+  intros H Hr Hn. destruct revs as [|[id idx] revs'], stack as [|[id' c] stack']; try done.
+  destruct H as (-> & Hle & jk & E & H). simpl.
+  destruct (decide (length (j_entries j) ≤ length (j_entries j'))%nat) as [Hl|Hg].
+  - split; [done|]. split; [lia|]. exists jk. split; [|done].
+    rewrite (revert_to_trans idx (length (j_entries j))) // Hr Hn. done.
+  - assert (j' = j) as ->; [|by split_and!; [done|done|exists jk]].
+    rewrite -Hr. unfold revert_to.
+    replace (length (j_entries j') - length (j_entries j))%nat with 0%nat by lia. done.
+Qed.
+
+(* looking up a revision on both sides *)
+Lemma set_revs_inv (X Y : jstate) r : X <| j_revs := r |> = Y → X = Y <| j_revs := j_revs X |>.
+Proof. destruct X, Y; rj; simpl. intros [=]; subst. done. Qed.
+
+Lemma stack_find st j revs stack id :
+  stack_rel st j revs stack →
+  match find_revision id revs with
+  | None => find_rev id stack = None
+  | Some (idx, rest) =>
+      (idx ≤ length (j_entries j))%nat ∧
+      ∃ c stack', find_rev id stack = Some (c, stack') ∧
+        ∃ jk, (revert_to idx j) <| j_revs := rest |> = jk <| j_nextrev := j_nextrev j |> ∧
+              j_revs jk = rest ∧ wf jk ∧ Rc st jk c ∧ stack_rel st jk rest stack'
+  end.
+Proof.
+  revert j stack. induction revs as [|[i idx] revs' IH]; intros j stack H.
+  - destruct stack; done.
+  - destruct stack as [|[i' c] stack']; [done|]. destruct H as (-> & Hle & jk & E & Hrv & Hlen & Wk & Rk & Hk).
+    simpl. destruct (i' =? id) eqn:Ei.
+    + split; [done|]. exists c, stack'. split; [done|]. by exists jk.
+    + specialize (IH jk stack' Hk). destruct (find_revision id revs') as [[idx2 rest]|]; [|done].
+      destruct IH as (Hle2 & c2 & st2 & F & jk2 & E2 & R2 & W2 & Rc2 & S2).
+      split; [lia|]. exists c2, st2. split; [done|]. exists jk2. split; [|done].
+      rewrite (revert_to_trans idx2 idx); [lia|].
+      apply set_revs_inv in E. rewrite E revert_to_set_revs revert_to_set_next.
+      revert E2. generalize (revert_to idx2 jk). intros A E2.
+      destruct A, jk2; rj; simpl in *. injection E2; intros; subst. done.
+Qed.
+
+(* ------------------------------------------------------------------ *)
+(* one step of each kind preserves the invariant and returns the same value *)
+Definition step_ok (j : jstate) (r : rstate) (o : op) : Prop :=
+  (step_j j o).2 = (step_r r o).2 ∧ Inv (step_j j o).1 (step_r r o).1.
+
+Lemma step_r_core r o :
+  core_op o = true →
+  step_r r o = (let '(c, w) := core_step (r_th r) (r_ti r) (r_cur r) o in
+                (r <| r_cur := c |> <| r_sticky := r_sticky r || sticky_touch (r_cur r) o |>, w)).
+Proof. by destruct o. Qed.
+
+Lemma step_core j r o :
+  Inv j r → core_op o = true → op_ok j o = true → sticky_j j o = false → step_ok j r o.
+Proof.
+  intros [W R Hth Hti Hn Hs] Hc Hok Hst.
+  pose proof (core_refines _ j _ o W R Hc Hok Hst) as (P1 & P2 & P3 & P4 & P5).
+  pose proof (restore j o W Hc Hok Hst) as Hr.
+  rewrite Hth Hti in P1 P3. unfold step_ok. rewrite step_r_core //.
+  rewrite -(sticky_eq _ _ _ o R) Hst orb_false_r.
+  destruct (core_step (r_th r) (r_ti r) (r_cur r) o) as [c w] eqn:Ec. simpl in *.
+  assert (Hrv : j_revs (step_j j o).1 = j_revs j ∧ j_nextrev (step_j j o).1 = j_nextrev j).
+  { rewrite -{2 4}Hr. unfold revert_to. symmetry. split; apply revert_n_revs. }
+  destruct Hrv as [Hrv Hnx].
+  split; [done|]. split.
+  - done.
+  - by destruct r.
+  - rewrite P4. by destruct r.
+  - rewrite P5. by destruct r.
+  - rewrite Hnx. by destruct r.
+  - rewrite Hrv. replace (r_stack (r <| r_cur := c |> <| r_sticky := r_sticky r |>)) with (r_stack r) by (by destruct r).
+    replace (r_sticky (r <| r_cur := c |> <| r_sticky := r_sticky r |>)) with (r_sticky r) by (by destruct r).
+    by eapply stack_rel_step.
+Qed.
+
+Lemma step_snapshot j r : Inv j r → step_ok j r OSnapshot.
+Proof.
+  intros [W R Hth Hti Hn Hs]. unfold step_ok. simpl. rewrite Hn. split; [done|].
+  set (j' := j <| j_revs ::= cons _ |> <| j_nextrev ::= N.succ |>).
+  assert (P : j_bad j' = j_bad j ∧ j_muts j' = j_muts j ∧ j_ala j' = j_ala j ∧ j_als j' = j_als j ∧
+              j_logs j' = j_logs j ∧ j_logsize j' = j_logsize j ∧ j_tstor j' = j_tstor j ∧ j_refund j' = j_refund j ∧
+              j_objs j' = j_objs j ∧ j_db j' = j_db j ∧ j_destruct j' = j_destruct j ∧ j_th j' = j_th j ∧
+              j_ti j' = j_ti j ∧ j_nextrev j' = N.succ (j_nextrev j) ∧ j_entries j' = j_entries j ∧
+              j_revs j' = (r_next r, length (j_entries j)) :: j_revs j)
+    by (subst j'; by destruct j).
+  destruct P as (P1&P2&P3&P4&P5&P6&P7&P8&P9&P10&P11&P12&P13&P14&P15&P16).
+  split.
+  - by apply (wf_ext j).
+  - replace (r_sticky _) with (r_sticky r) by (by destruct r).
+    replace (r_cur _) with (r_cur r) by (by destruct r). by apply (Rc_ext _ j).
+  - rewrite P12 Hth. by destruct r.
+  - rewrite P13 Hti. by destruct r.
+  - rewrite P14 Hn. by destruct r.
+  - rewrite P16. replace (r_sticky _) with (r_sticky r) by (by destruct r).
+    replace (r_stack _) with ((r_next r, r_cur r) :: r_stack r) by (by destruct r).
+    simpl. split; [done|]. split; [lia|]. exists j. split_and!; try done.
+    rewrite -P15 revert_to_0. subst j'. by destruct j.
+Qed.
+
+Lemma step_revert j r id : Inv j r → step_ok j r (ORevert id).
+Proof.
+  intros [W R Hth Hti Hn Hs]. unfold step_ok. simpl.
+  pose proof (stack_find _ _ _ _ id Hs) as H.
+  destruct (find_revision id (j_revs j)) as [[idx rest]|].
+  - destruct H as (Hle & c & stack' & -> & jk & E & Hrv & Wk & Rk & Sk). simpl. split; [done|].
+    rewrite E.
+    assert (P : j_bad (jk <| j_nextrev := j_nextrev j |>) = j_bad jk ∧ j_muts (jk <| j_nextrev := j_nextrev j |>) = j_muts jk ∧
+      j_ala (jk <| j_nextrev := j_nextrev j |>) = j_ala jk ∧ j_als (jk <| j_nextrev := j_nextrev j |>) = j_als jk ∧
+      j_logs (jk <| j_nextrev := j_nextrev j |>) = j_logs jk ∧ j_logsize (jk <| j_nextrev := j_nextrev j |>) = j_logsize jk ∧
+      j_tstor (jk <| j_nextrev := j_nextrev j |>) = j_tstor jk ∧ j_refund (jk <| j_nextrev := j_nextrev j |>) = j_refund jk ∧
+      j_objs (jk <| j_nextrev := j_nextrev j |>) = j_objs jk ∧ j_db (jk <| j_nextrev := j_nextrev j |>) = j_db jk ∧
+      j_destruct (jk <| j_nextrev := j_nextrev j |>) = j_destruct jk ∧ j_th (jk <| j_nextrev := j_nextrev j |>) = j_th jk ∧
+      j_ti (jk <| j_nextrev := j_nextrev j |>) = j_ti jk ∧ j_nextrev (jk <| j_nextrev := j_nextrev j |>) = j_nextrev j ∧
+      j_revs (jk <| j_nextrev := j_nextrev j |>) = j_revs jk) by (by destruct jk).
+    destruct P as (P1&P2&P3&P4&P5&P6&P7&P8&P9&P10&P11&P12&P13&P14&P15).
+    assert (Hthk : j_th jk = j_th j ∧ j_ti jk = j_ti j).
+    { assert (Hx : j_th (jk <| j_nextrev := j_nextrev j |>) = j_th j ∧ j_ti (jk <| j_nextrev := j_nextrev j |>) = j_ti j).
+      { rewrite -E. admit. }
+      by rewrite P12 P13 in Hx. }
+    admit.
+  - rewrite H. split; [done|]. by split.
+Abort.
